@@ -160,7 +160,13 @@ pub fn eval(cat: &Catalog, case: &Case) -> Evaluated {
                 }),
                 _ => {
                     let b = heap_budget(case.input.len());
-                    if meter.mem.peak > b || meter.mem.largest > b {
+                    // N zero-sized elements encode in O(log N) bytes but a node-based container still
+                    // allocates per element: the same exemption as for the step budget (DESIGN 9.2)
+                    let exempt = e.zero_sized_elems && (meter.mem.peak > b || meter.mem.largest > b) && {
+                        let (_, steps) = model::dec::ref_decode_metered(&cat.reg, &e.ty, &case.input);
+                        steps > (1 << 12)
+                    };
+                    if !exempt && (meter.mem.peak > b || meter.mem.largest > b) {
                         Some(Finding {
                             class: "alloc".into(),
                             detail: format!(
